@@ -220,6 +220,17 @@ def sweep(tier: str) -> Sweep:
                     sw.check(got == ", ".join(objs[nm].string for nm in names), "a group does not read back its members' default-format renderings",
                              {"clause": "same-names", "decl": [f"{a}:{b}" for a, b in zip(names, kinds)], "fmt": fmt, "text": text}, ", ".join(objs[nm].string for nm in names), got)
                     results[key] = got
+    # occurrences are merged and must agree - also when a directive is repeated inside an occurrence that is itself
+    # repeated: whichever single position states another value, the string is refused
+    for name, G, d, fmt, text, bad, t1 in corr_fmt.group_inner_repeats():
+        case = {"clause": "repeats-inner", "cls": name, "directive": d, "fmt": fmt, "text": text}
+        sw.note(["repeats-inner", name, fmt, text], "repeats-inner")
+        try:
+            got = G.parse(text, fmt).groups["x"].format(d)
+        except Exception as e:  # noqa: BLE001
+            sw.check(bad is not None, "agreeing occurrences of a member are refused", case, t1, f"{type(e).__name__}: {str(e)[:80]}")
+            continue
+        sw.check(bad is None and got == t1, "disagreeing occurrences of a member are accepted" if bad is not None else "agreeing occurrences are merged into another value", case, "refused" if bad is not None else t1, got)
     return sw
 
 
